@@ -23,10 +23,17 @@
        every evaluation and every stored value) is assumed, not derived from the evaluator (C18) and the search;
      - the seed path of Analyze (ms := [te.m] from an exact root entry, never re-validated when no iteration runs) is
        covered only through the hypothesis "the seed's head is legal or the first iteration completes" (NoCollisionOn);
-     - whole-PV replay for non-decisive values, the opening book wrapper and the Monte-Carlo player are NOT modelled:
-       they are covered by the direct oracle only (harness/cmd/runimpl/c04.go). *)
+     - whole-PV replay for non-decisive values is NOT modelled: it is covered by the direct oracle only
+       (harness/cmd/runimpl/c04.go).
+     (6) the Monte-Carlo player: model coq/Mcts.v, executed against ai/mcts pass by pass; see the C04_mcts_* block below.
+     (7) the opening book: model coq/Opening.v (BuildOpeningBook, OpeningBook.GetMove, OpeningPlayer.GetMove), executed
+         against ai/opening.go on every run (CASE BOOK lines: the whole built book and the answers under a scripted random
+         source); C04_opening_book_move_legal / C04_opening_player_move_legal: every move the book answers is accepted by
+         Position.Move, under NoCollision stated explicitly; see the block at the end. *)
 From Coq Require Import NArith ZArith List Bool.
 Require Import Board Move GameOver Refine RefinePlace2 Inst LegalMove LegalMoveLive LegalMoveInst.
+Require Mcts MctsFacts MctsFacts2 MctsFacts3 MctsFacts4 MctsFacts5 PtnFileSafe.
+Require Opening OpeningFacts1 OpeningFacts2 OpeningFacts OpeningEx Preserve1 Preserve5 TpsFacts5 Generated.Consts.
 Import ListNotations.
 
 (* (1) A live position has a legal move and AllMoves lists it.  wf: sizes 3..8, Height/Stacks of length size^2,
@@ -132,3 +139,234 @@ Theorem C04_analyze_all_heads_legal :
   Forall (head_legal pos mv apply p) (analyze_all pos mv keep pv (yield pos mv apply mv_eqb p h ms)).
 Proof. exact analyze_all_heads_legal. Qed.
 Print Assumptions C04_analyze_all_heads_legal.
+
+
+(* ---- (6) the Monte-Carlo player (ai/mcts), model coq/Mcts.v, executed against the code pass by pass (CASE MCTS lines) ----
+   F, f_*: the float scores of tree.ucb are a parameter (any type, any functions): every statement holds for ANY selection rule.
+   rs: the oracle stream of math/rand values; fuel: how often the clock lets the loop run; perm: sort.Sort's permutation. *)
+
+(* the invariant: every child in the tree was produced by a successful MovePreallocated on its parent's position *)
+Theorem C04_mcts_pass_keeps_invariant :
+  forall (F : Type) (f_neg_inf f_m100 f_p100 f_p10 : F) (f_score : Z -> Z -> Z -> F) (f_gt f_eq : F -> F -> bool)
+         (cfg : Mcts.mcfg) (t : Mcts.tree) (rs : Mcts.rstream) (t' : Mcts.tree) (brk : bool) (rs' : Mcts.rstream),
+  MctsFacts.tree_ok t ->
+  Mcts.iter_step F f_neg_inf f_m100 f_p100 f_p10 f_score f_gt f_eq cfg t rs = Ok (t', brk, rs') ->
+  MctsFacts.tree_ok t' /\ MctsFacts.same_head t t'.
+Proof. exact MctsFacts.iter_step_preserves. Qed.
+Print Assumptions C04_mcts_pass_keeps_invariant.
+
+Theorem C04_mcts_loop_keeps_invariant :
+  forall (F : Type) (f_neg_inf f_m100 f_p100 f_p10 : F) (f_score : Z -> Z -> Z -> F) (f_gt f_eq : F -> F -> bool)
+         (cfg : Mcts.mcfg) (fuel : nat) (t : Mcts.tree) (rs : Mcts.rstream) (t' : Mcts.tree) (rs' : Mcts.rstream),
+  MctsFacts.tree_ok t ->
+  Mcts.iterate F f_neg_inf f_m100 f_p100 f_p10 f_score f_gt f_eq cfg fuel t rs = Ok (t', rs') ->
+  MctsFacts.tree_ok t' /\ MctsFacts.same_head t t'.
+Proof. exact MctsFacts.iterate_preserves. Qed.
+Print Assumptions C04_mcts_loop_keeps_invariant.
+
+(* the final choice (most simulations with random tie-break / proven child) returns the move of a child of the root *)
+Theorem C04_mcts_final_choice_is_a_child :
+  forall (t : Mcts.tree) (perm : list nat) (rs : Mcts.rstream) (m : rmove) (rs' : Mcts.rstream),
+  Mcts.final_choice t perm rs = Ok (m, rs') -> exists c, In c (Mcts.t_children t) /\ m = Mcts.t_move c.
+Proof. exact MctsFacts.final_choice_child. Qed.
+Print Assumptions C04_mcts_final_choice_is_a_child.
+
+(* hence: whatever GetMove returns after searching is accepted by MovePreallocated on the searched position — NO hypothesis on
+   the position, the stream, the scores, the clock, the sort *)
+Theorem C04_mcts_searched_move_legal :
+  forall (F : Type) (f_neg_inf f_m100 f_p100 f_p10 : F) (f_score : Z -> Z -> Z -> F) (f_gt f_eq : F -> F -> bool)
+         (cfg : Mcts.mcfg) (fuel : nat) (perm : list nat) (p : position) (rs : Mcts.rstream) (m : rmove) (rs' : Mcts.rstream),
+  Mcts.force_corners cfg && (move p <? 2)%Z = false ->
+  Mcts.get_move F f_neg_inf f_m100 f_p100 f_p10 f_score f_gt f_eq cfg fuel perm p rs = Ok (m, rs') ->
+  exists q, Inst.mv_fixed p m = Ok q.
+Proof. exact MctsFacts.getmove_searched_move_legal. Qed.
+Print Assumptions C04_mcts_searched_move_legal.
+
+(* cornerMove (ForceCorners, plies 0 and 1): the returned corner is empty and the placement is legal; no panic; the loop can
+   only fail to return (Err: stream exhausted) when every pair of draws selected an occupied corner ... *)
+Theorem C04_mcts_corner_move_legal :
+  forall (p : position) (rs : Mcts.rstream), wf p -> (move p < 2)%Z -> opening_supply p ->
+  match Mcts.corner_move p rs with
+  | Ok (m, _) => exists q, Inst.mv_fixed p m = Ok q
+  | Err => MctsFacts2.all_pairs_occupied p rs
+  | Panic => False
+  end.
+Proof. exact MctsFacts2.corner_move_legal. Qed.
+Print Assumptions C04_mcts_corner_move_legal.
+
+(* ... which cannot happen with at most one occupied square once the stream holds two pairs of draws differing in a low bit *)
+Theorem C04_mcts_corner_move_returns :
+  forall (p : position) (rs : Mcts.rstream) (ab ab' : N * N), wf p -> (move p < 2)%Z -> opening_supply p ->
+  MctsFacts2.at_most_one_occupied p -> In ab (MctsFacts2.pairs rs) -> In ab' (MctsFacts2.pairs rs) -> ab <> ab' ->
+  exists m rs' q, Mcts.corner_move p rs = Ok (m, rs') /\ Inst.mv_fixed p m = Ok q.
+Proof. exact MctsFacts2.corner_move_returns. Qed.
+Print Assumptions C04_mcts_corner_move_returns.
+
+(* descend never panics and stops at a node of the tree *)
+Theorem C04_mcts_descend_in_tree :
+  forall (F : Type) (f_neg_inf f_m100 f_p100 f_p10 : F) (f_score : Z -> Z -> Z -> F) (f_gt f_eq : F -> F -> bool)
+         (t : Mcts.tree) (rs : Mcts.rstream),
+  match Mcts.descend F f_neg_inf f_m100 f_p100 f_p10 f_score f_gt f_eq t rs with
+  | Ok (path, _) => (exists node, Mcts.node_at path t = Some node) /\ (Mcts.t_children t <> [] -> path <> [])
+  | Err => True
+  | Panic => False
+  end.
+Proof. exact MctsFacts3.descend_spec. Qed.
+Print Assumptions C04_mcts_descend_in_tree.
+
+(* after at least one pass over a live position the root has a child (C04_live_has_legal_move): tree.children[0] exists *)
+Theorem C04_mcts_root_has_child :
+  forall (F : Type) (f_neg_inf f_m100 f_p100 f_p10 : F) (f_score : Z -> Z -> Z -> F) (f_gt f_eq : F -> F -> bool)
+         (cfg : Mcts.mcfg) (p : position) (c : gcolor) (fuel : nat) (rs : Mcts.rstream) (t : Mcts.tree) (rs' : Mcts.rstream),
+  wf p -> in_mask p -> opening_supply p -> game_over p = Some (false, c) ->
+  Mcts.iterate F f_neg_inf f_m100 f_p100 f_p10 f_score f_gt f_eq cfg (S fuel) (Mcts.root_of p) rs = Ok (t, rs') ->
+  Mcts.t_children t <> [].
+Proof. exact MctsFacts3.iterate_root_has_child. Qed.
+Print Assumptions C04_mcts_root_has_child.
+
+(* GetMove returns only legal moves (searched answer and forced corner) *)
+Theorem C04_mcts_getmove_legal :
+  forall (F : Type) (f_neg_inf f_m100 f_p100 f_p10 : F) (f_score : Z -> Z -> Z -> F) (f_gt f_eq : F -> F -> bool)
+         (cfg : Mcts.mcfg) (fuel : nat) (perm : list nat) (p : position) (rs : Mcts.rstream) (m : rmove) (rs' : Mcts.rstream),
+  (Mcts.force_corners cfg && (move p <? 2)%Z = true -> wf p /\ opening_supply p) ->
+  Mcts.get_move F f_neg_inf f_m100 f_p100 f_p10 f_score f_gt f_eq cfg fuel perm p rs = Ok (m, rs') ->
+  exists q, Inst.mv_fixed p m = Ok q.
+Proof. exact MctsFacts5.getmove_legal. Qed.
+Print Assumptions C04_mcts_getmove_legal.
+
+(* GetMove does not panic (Int31n(0) in a rollout, index panics, BitCoords, tree.children[0]) with at least one pass of the loop,
+   for every invariant G of positions that is kept by moves, excludes MovePreallocated panics (PtnFileSafe.safe), gives live
+   positions a legal move and makes the evaluator total *)
+Theorem C04_mcts_search_no_panic_generic :
+  forall G : position -> Prop,
+  (forall p, G p -> PtnFileSafe.safe p) ->
+  (forall p m q, G p -> Inst.mv_fixed p m = Ok q -> G q) ->
+  (forall p c, G p -> game_over p = Some (false, c) -> exists m q, In m (all_moves p) /\ Inst.mv_fixed p m = Ok q) ->
+  (forall p, G p -> EvalInst.eval_default p <> Panic) ->
+  forall (F : Type) (f_neg_inf f_m100 f_p100 f_p10 : F) (f_score : Z -> Z -> Z -> F) (f_gt f_eq : F -> F -> bool)
+         (cfg : Mcts.mcfg) (fuel : nat) (perm : list nat) (p : position) (c : gcolor) (rs : Mcts.rstream),
+  G p -> game_over p = Some (false, c) -> Mcts.force_corners cfg && (move p <? 2)%Z = false ->
+  Mcts.get_move F f_neg_inf f_m100 f_p100 f_p10 f_score f_gt f_eq cfg (S fuel) perm p rs <> Panic.
+Proof. exact MctsFacts4.getmove_search_no_panic. Qed.
+Print Assumptions C04_mcts_search_no_panic_generic.
+
+(* FULL STATEMENT (not proved): forall p, wf-reachable p -> live p -> get_move ... (S fuel) ... p rs <> Panic.
+   PROVED: for G0 = C01's pos_ok + at most 64 pieces in the game (every standard game up to 6x6) + ply >= 0 + opening supply,
+   ASSUMING the built-in evaluator is total on G0 (C18 bounds its values; totality needs the geometry of bitboard.Dimensions:
+   missing), and without the 7x7/8x8 games (more than 64 pieces: needs a stack-height hypothesis along the rollouts). *)
+Theorem C04_mcts_getmove_no_panic_partial :
+  (forall p, MctsFacts5.G0 p -> EvalInst.eval_default p <> Panic) ->
+  forall (F : Type) (f_neg_inf f_m100 f_p100 f_p10 : F) (f_score : Z -> Z -> Z -> F) (f_gt f_eq : F -> F -> bool)
+         (cfg : Mcts.mcfg) (fuel : nat) (perm : list nat) (p : position) (c : gcolor) (rs : Mcts.rstream),
+  MctsFacts5.G0 p -> game_over p = Some (false, c) ->
+  Mcts.get_move F f_neg_inf f_m100 f_p100 f_p10 f_score f_gt f_eq cfg (S fuel) perm p rs <> Panic.
+Proof. exact MctsFacts5.getmove_no_panic_partial. Qed.
+Print Assumptions C04_mcts_getmove_no_panic_partial.
+
+(* non-vacuity: a live 14-ply 5x5 position and the 5x5 start position satisfy the hypotheses above *)
+Theorem C04_mcts_nonvacuous :
+  (MctsFacts5.G0 PreserveEx.p14 /\ game_over PreserveEx.p14 = Some (false, GNone)) /\
+  (MctsFacts5.G0 PreserveEx.start5 /\ game_over PreserveEx.start5 = Some (false, GNone) /\ wf PreserveEx.start5 /\
+   opening_supply PreserveEx.start5 /\ MctsFacts2.at_most_one_occupied PreserveEx.start5).
+Proof. exact (conj MctsFacts5.G0_p14 MctsFacts5.G0_start5). Qed.
+Print Assumptions C04_mcts_nonvacuous.
+
+(* non-vacuity of the legality theorems: the model returns moves (3x3 start position, three passes; forced corner) *)
+Theorem C04_mcts_nonvacuous_runs :
+  MctsFacts5.ex_search = Ok ({| mX := 2; mY := 2; mT := 2; mS := 0 |}, repeat 0%N 8) /\
+  MctsFacts5.ex_corner = Ok ({| mX := 2; mY := 0; mT := 2; mS := 0 |}, []).
+Proof. exact (conj MctsFacts5.ex_getmove_search MctsFacts5.ex_getmove_corner). Qed.
+Print Assumptions C04_mcts_nonvacuous_runs.
+
+(* ---- (7) the opening book (ai/opening.go), model coq/Opening.v, executed against the code on every run (CASE BOOK lines) ----
+   Opening.build_book gen_basis sz lines = BOk b: BuildOpeningBook(sz, lines) returned a book (no error exit, no panic);
+     lines are the raw byte strings, split at single spaces and parsed with PtnMove.parse_move as the code does.
+   Opening.book_get_move b p rnd i = Ok (m, true, j): OpeningBook.GetMove(p, r) returned (m, true), where rnd k n is the
+     result of the k-th call r.Int31n(n) (OpeningFacts.in_range: 0 <= rnd k n < n, as math/rand guarantees).
+   HYPOTHESES, all explicit:
+   - OpeningFacts.NoCollisionOn S, S = the queried position p and OpeningFacts.book_position sz lines (the eight symmetric
+     images of every position in front of a word of a line): two members of S with the same 64-bit Hash() show the same
+     squares and have the same side to move.  (Hash() does not see the ply counter, so the entry found for p may have
+     been created at another ply: the proof transfers legality along "same squares, same side to move".)
+   - OpeningFacts.lines_heights64 sz lines: no position reached along a book line has a stack higher than 64 - the
+     representation limit of C01.  For sizes 3..6 (at most 62 pieces) it holds outright: C04_opening_book_move_legal_small.
+   - the queried position: Preserve1.pos_ok p (the C01 invariant), TpsFacts5.reserves_match_board p (its four reserve counters
+     are the default counts of its size less the pieces on its board - Symmetries rebuilds the book's positions with
+     FromSquares from the default configuration, so only such positions have the book positions' legal moves),
+     OpeningFacts2.opening_consistent p (the ply counter is below 2 exactly when fewer than two pieces have left the
+     reserves).  Every position reached from tak.New(Config{Size}) by legal moves satisfies all three
+     (C04_game_positions_satisfy_query_hypotheses, sizes 3..6).
+   Non-vacuity: C04_opening_book_nonvacuous (a concrete two-move 5x5 line: the book builds, every hypothesis holds, a move is returned).
+   NOT proved (would make the statement "never panics"): Int31n's argument int32(sum) stays positive - it does as long as
+   an entry's weights sum to less than 2^31, i.e. for every book with fewer than 2^28 words; the model keeps the panic. *)
+Theorem C04_opening_book_move_legal :
+  forall (sz : Z) (lines : list (list N)) (b : Opening.book) (p : position) (rnd : nat -> Z -> Z) (i : nat) (m : rmove) (j : nat),
+  Opening.build_book Generated.Consts.gen_basis sz lines = Opening.BOk b ->
+  OpeningFacts.lines_heights64 sz lines ->
+  OpeningFacts.NoCollisionOn (fun x => x = p \/ OpeningFacts.book_position sz lines x) ->
+  Preserve1.pos_ok p -> TpsFacts5.reserves_match_board p -> OpeningFacts2.opening_consistent p ->
+  OpeningFacts.in_range rnd ->
+  Opening.book_get_move b p rnd i = Ok (m, true, j) ->
+  exists p', Refine.mv p m = Ok p'.
+Proof. exact OpeningFacts.opening_book_move_legal. Qed.
+Print Assumptions C04_opening_book_move_legal.
+
+Theorem C04_opening_book_move_legal_small :
+  forall (sz : Z) (lines : list (list N)) (b : Opening.book) (p : position) (rnd : nat -> Z -> Z) (i : nat) (m : rmove) (j : nat),
+  (sz <= 6)%Z ->
+  Opening.build_book Generated.Consts.gen_basis sz lines = Opening.BOk b ->
+  OpeningFacts.NoCollisionOn (fun x => x = p \/ OpeningFacts.book_position sz lines x) ->
+  Preserve1.pos_ok p -> TpsFacts5.reserves_match_board p -> OpeningFacts2.opening_consistent p ->
+  OpeningFacts.in_range rnd ->
+  Opening.book_get_move b p rnd i = Ok (m, true, j) ->
+  exists p', Refine.mv p m = Ok p'.
+Proof. exact OpeningFacts.opening_book_move_legal_small. Qed.
+Print Assumptions C04_opening_book_move_legal_small.
+
+(* OpeningPlayer.GetMove: the book's answer when it has one, else the inner player's (an arbitrary function) *)
+Theorem C04_opening_player_move_legal :
+  forall (sz : Z) (lines : list (list N)) (b : Opening.book) (inner : position -> Move.res rmove) (p : position)
+         (rnd : nat -> Z -> Z) (i : nat) (m : rmove) (j : nat),
+  Opening.build_book Generated.Consts.gen_basis sz lines = Opening.BOk b ->
+  OpeningFacts.lines_heights64 sz lines ->
+  OpeningFacts.NoCollisionOn (fun x => x = p \/ OpeningFacts.book_position sz lines x) ->
+  Preserve1.pos_ok p -> TpsFacts5.reserves_match_board p -> OpeningFacts2.opening_consistent p ->
+  OpeningFacts.in_range rnd ->
+  (forall m', inner p = Ok m' -> exists p', Refine.mv p m' = Ok p') ->
+  Opening.opening_player_get_move b inner p rnd i = Ok (m, j) ->
+  exists p', Refine.mv p m = Ok p'.
+Proof. exact OpeningFacts.opening_player_move_legal. Qed.
+Print Assumptions C04_opening_player_move_legal.
+
+(* the invariant behind it: every entry of a built book is keyed by the hash of its position, lists at least one reply,
+   and every listed reply is accepted by Position.Move on the entry's own position *)
+Theorem C04_opening_book_entries_legal :
+  forall (sz : Z) (lines : list (list N)) (b : Opening.book) (S : position -> Prop),
+  OpeningFacts.NoCollisionOn S -> (forall q, OpeningFacts.book_position sz lines q -> S q) ->
+  OpeningFacts.lines_heights64 sz lines ->
+  Opening.build_book Generated.Consts.gen_basis sz lines = Opening.BOk b ->
+  forall e, In e b ->
+    Opening.be_hash e = GameOver.hash_of (Opening.be_pos e) /\ Opening.be_moves e <> [] /\
+    forall c, In c (Opening.be_moves e) -> exists q', Refine.mv (Opening.be_pos e) (Opening.ch_move c) = Ok q'.
+Proof. exact OpeningEx.book_entries_legal. Qed.
+Print Assumptions C04_opening_book_entries_legal.
+
+(* the hypotheses on the queried position hold in every game from tak.New with default counts (sizes 3..6: no height hypothesis) *)
+Theorem C04_game_positions_satisfy_query_hypotheses :
+  forall (sz : Z) (p0 : position) (ms : list rmove) (p : position),
+  (sz <= 6)%Z -> Opening.new_pos Generated.Consts.gen_basis sz = Ok p0 -> AllMovesFacts5.replay p0 ms = Ok p ->
+  Preserve1.pos_ok p /\ TpsFacts5.reserves_match_board p /\ OpeningFacts2.opening_consistent p.
+Proof. exact OpeningEx.game_positions_good. Qed.
+Print Assumptions C04_game_positions_satisfy_query_hypotheses.
+
+(* non-vacuity: the 5x5 line "a1 e5" *)
+Theorem C04_opening_book_nonvacuous :
+  exists (b : Opening.book) (p : position) (m : rmove) (j : nat),
+  Opening.build_book Generated.Consts.gen_basis 5 [OpeningEx.ex_line] = Opening.BOk b /\
+  OpeningFacts.lines_heights64 5 [OpeningEx.ex_line] /\
+  OpeningFacts.NoCollisionOn (fun x => x = p \/ OpeningFacts.book_position 5 [OpeningEx.ex_line] x) /\
+  Preserve1.pos_ok p /\ TpsFacts5.reserves_match_board p /\ OpeningFacts2.opening_consistent p /\
+  OpeningFacts.in_range (fun _ _ => 0%Z) /\
+  Opening.book_get_move b p (fun _ _ => 0%Z) 0 = Ok (m, true, j) /\ m <> Opening.zero_move.
+Proof. exact OpeningEx.ex_nonvacuous. Qed.
+Print Assumptions C04_opening_book_nonvacuous.
